@@ -344,7 +344,9 @@ impl<'a> DocGen<'a> {
                     break;
                 }
                 self.budget = self.budget.saturating_sub(1);
-                if self.opts.comments && arm.block && self.rng.chance(1, 12) {
+                // comments stand in front of blocks, and less often in front of keywords (also the position-restricted
+                // ones of RECORD_LAYOUT, which the writer moves)
+                if self.opts.comments && self.rng.chance(1, if arm.block { 12 } else { 30 }) {
                     let c = if self.rng.chance(1, 2) { format!("/* c{} */", self.counter) } else { format!("// c{}", self.counter) };
                     self.push(c, Role::Comment, depth + 1);
                 }
